@@ -232,7 +232,27 @@ pub async fn run_seq(role: Role, state: State, seq: &[usize], alpha: &[Tpl], rev
             // still pending - the dispatcher then notices the closed io first
             let names: Vec<&str> = seq.iter().map(|k| alpha[*k].name).collect();
             let stray_ack = names.iter().any(|n| ["PUBACK", "PUBREC", "PUBCOMP", "SUBACK", "UNSUBACK"].iter().any(|a| n.starts_with(a)));
-            let handler_pending = app.count(|e| matches!(e, Ev::ProtoDropped { .. } | Ev::PubDropped { .. })) > 0;
+            // a handler was running when the control service was told (entered before, ended after)
+            let handler_pending = {
+                let log = app.snapshot();
+                let stop_seq = log.iter().find_map(|(s, e)| matches!(e, Ev::CtlEnter { stop: Some(_), .. }).then_some(*s)).unwrap_or(u64::MAX);
+                let mut open: std::collections::HashSet<u32> = std::collections::HashSet::new();
+                for (s, e) in &log {
+                    if *s >= stop_seq {
+                        break;
+                    }
+                    match e {
+                        Ev::PubEnter { call, .. } | Ev::ProtoEnter { call, .. } => {
+                            open.insert(*call);
+                        }
+                        Ev::PubExit { call, .. } | Ev::ProtoExit { call, .. } | Ev::PubDropped { call } | Ev::ProtoDropped { call } => {
+                            open.remove(call);
+                        }
+                        _ => {}
+                    }
+                }
+                !open.is_empty()
+            };
             let class_txt = if *class == crate::app::StopClass::PeerGone && stray_ack && handler_pending {
                 "unexpected acknowledgement while a handler was pending: the control service saw PeerGone instead of the protocol error".to_string()
             } else {
